@@ -33,7 +33,7 @@ def gen_body(rng, build, mine, nbodies, j, maxbody, stats, root, can_spawn, firs
                     pending = True
             else:
                 k = rng.choice(created) if created and rng.random() < 0.95 else rng.choice(mine)
-                op = rng.choice(["p", "p", "a", "a", "d"])
+                op = rng.choice(["p", "p", "a", "a", "d", "m"])
                 body.append(f"{op}{k}")
         elif r < 0.62:
             body.append("y")
